@@ -87,3 +87,64 @@ def foreign_writes(ff, allowed_params):
             continue
         out.append(w)
     return out
+
+
+def cell_writes(ff, out_param, ssize):
+    """Per output cell (index in scalars) the list of writes: dicts {const: number|None, deps: set, text}.
+    memset / memcpy with constant length are expanded cell-wise.  Returns (cells, problems)."""
+    cells = {}
+    problems = []
+    for w in ff.writes():
+        p = w["prov"]
+        roots = ir.flat_roots(p.root)
+        if ("param", out_param) not in roots:
+            continue
+        if len(roots) > 1 or p.off is None or w["size"] is None:
+            problems.append("write to the output with non-constant offset/size: %s" % w["instr"].text[:100])
+            continue
+        cd = set()
+        for c in ff.control_deps().get(w["instr"].block, ()):
+            cd |= ff.deps(c)
+        if w["kind"] == "store":
+            n = max(1, w["size"] // ssize)
+            if w["size"] % ssize:
+                problems.append("store of %d bytes not a multiple of the scalar size: %s" % (w["size"], w["instr"].text[:100]))
+                continue
+            if n == 1:
+                cv = ff.const_value(w["value"])
+                deps = set(cd)
+                if cv is None:
+                    deps |= ff.deps(w["value"]) if w["value"].startswith("%") else set()
+                    if not w["value"].startswith("%"):
+                        problems.append("store of a non-numeric constant: %s" % w["instr"].text[:100])
+                cells.setdefault(p.off // ssize, []).append({"const": cv, "deps": deps, "text": w["instr"].text[:100]})
+            else:
+                # vector store: element-wise constants "<double 0.0, double 1.0>" or zeroinitializer, else whole-value deps
+                v = w["value"]
+                elems = None
+                if v == "zeroinitializer":
+                    elems = [0.0] * n
+                elif v.startswith("<"):
+                    parts = ir.split_top(v[1:-1])
+                    vals = [ir.parse_const(x.split()[-1]) for x in parts]
+                    if all(x is not None for x in vals) and len(vals) == n:
+                        elems = vals
+                for k in range(n):
+                    if elems is not None:
+                        cells.setdefault(p.off // ssize + k, []).append({"const": elems[k], "deps": set(cd), "text": w["instr"].text[:100]})
+                    else:
+                        deps = set(cd) | (ff.deps(v) if v.startswith("%") else set())
+                        cells.setdefault(p.off // ssize + k, []).append({"const": None, "deps": deps, "text": w["instr"].text[:100]})
+        elif w["kind"] == "memset":
+            val = ff.const_value(w["value"])
+            if val is None:
+                problems.append("memset with non-constant value: %s" % w["instr"].text[:100])
+                continue
+            for k in range(p.off // ssize, (p.off + w["size"]) // ssize):
+                cells.setdefault(k, []).append({"const": 0.0 if val == 0 else float("nan"), "deps": set(cd), "text": w["instr"].text[:100]})
+        else:  # memcpy
+            sp = w["src"]
+            for k in range(w["size"] // ssize):
+                so = None if sp.off is None else sp.off + k * ssize
+                cells.setdefault(p.off // ssize + k, []).append({"const": None, "deps": set(cd) | {("mem", sp.root, so)}, "text": w["instr"].text[:100]})
+    return cells, problems
